@@ -528,6 +528,8 @@ class Tr(object):
             return env[recv[1][0]].fields["avail"]
         if name in self.cfg.get("methods", {}) and not self.known_fn(self.ty_of(recv, env), name):
             return "(%s %s)" % (self.cfg["methods"][name], " ".join([self.pure(recv, env)] + [self.pure(a, env) for a in args]))
+        if name in ("is_err", "is_none") and not args and recv[0] == "mcall" and recv[2] == "to_str":
+            return "(match %s with Some _ => false | None => true end)" % self.pure(recv, env)
         if name == "count" and not args:
             return "(len %s)" % self.iter_base(recv, env)
         if name == "to_str" and not args:
@@ -644,6 +646,8 @@ class Tr(object):
         if kd == "macro":
             if e[1] == "unreachable":
                 return 'Panic "%s: unreachable!() in %s"' % (self.cfg["file"], self.cfg["rust"])
+            if e[1] in ("debug", "trace", "info", "warn"):
+                return k("tt", env)            # logging
             raise Unsupported("macro %s!" % e[1])
         if kd == "try":
             inner = e[1]
@@ -1385,6 +1389,14 @@ Open Scope bool_scope.
 Definition resp_status (r : response) : N := rs_status r.
 Definition resp_last_location (r : response) : option bytes := last_opt (hm_get_all (rs_headers r) (s2b "location")).
 Definition resp_has_close (r : response) : bool := headers_has (hm_iter (rs_headers r)) (s2b "connection") (s2b "close").
+Definition resp_is_redirection (r : response) : bool := is_redirection (rs_status r).
+Definition resp_has_location (r : response) : bool := hm_contains (rs_headers r) (s2b "location").
+Definition resp_insert_close (r : response) : response :=
+  {| rs_version := rs_version r; rs_status := rs_status r; rs_headers := hm_insert (rs_headers r) (s2b "connection") (s2b "close") |}.
+Definition resp_is_http10 (r : response) : bool := rs_version r =? 0.
+Definition resp_headers_nonempty (r : response) : bool := match rs_headers r with [] => false | _ => true end.
+Definition resp_get_content_length (r : response) : option bytes := hm_get (rs_headers r) (s2b "content-length").
+Definition resp_text_lookup (r : response) : bytes -> option bytes := lookup_text (rs_headers r).
 """
 
 
@@ -1567,6 +1579,29 @@ FLOWFUNCS = [
                  ("call_result", "val", "res (option (N * response))", "res")],
          known=["resp_status", "resp_last_location", "resp_has_close"],
          rust_ret="Result<(usize, Option<Response<()>>), Error>"),
+    # src/client/call.rs: Call<RecvResponse>::try_response -- complete head or the partial-redirect work-around, the 100 special case, the
+    # Content-Length text test, the framing decision (for_response, translated above) recorded in state.reader.  The two parsers' results
+    # are values of the model's types; what is asked of a response are the model's readings of the http accessors (resp_* in Gen2.v);
+    # the header_lookup closure must have EXACTLY the text below to be replaced by resp_text_lookup (otherwise: not translated).
+    dict(coq="gen_call_try_response", file="src/client/call.rs", impl=r"impl<B>\s+Call<RecvResponse,\s*B>", rust="try_response",
+         subst=[(r"try_parse_response::<MAX_RESPONSE_HEADERS>\(input\)", "parsed"),
+                (r"try_parse_partial_response::<MAX_RESPONSE_HEADERS>\(input\)", "partial"),
+                (r"r\.status\(\)\.is_redirection\(\)", "resp_is_redirection(r)"),
+                (r"r\.headers\(\)\.contains_key\(\"location\"\)", "resp_has_location(r)"),
+                (r"r\.headers_mut\(\)\s*\.insert\(\"connection\", HeaderValue::from_static\(\"close\"\)\);", "r = resp_insert_close(r);"),
+                (r"response\.version\(\) == Version::HTTP_10", "resp_is_http10(response)"),
+                (r"response\.status\(\)\.as_u16\(\)", "resp_status(response)"),
+                (r"!response\.headers\(\)\.is_empty\(\)", "resp_headers_nonempty(response)"),
+                (r"response\.headers\(\)\.get\(\"content-length\"\)", "resp_get_content_length(response)"),
+                (r"\|name: &str\| \{\s*if let Some\(header\) = response\.headers\(\)\.get\(name\) \{\s*return header\.to_str\(\)\.ok\(\);\s*\}\s*None\s*\}", "resp_text_lookup(response)"),
+                (r"self\.request\.method\(\)", "method"), (r"self\.state\.", "state_")],
+         params=[("state_reader", "mutval", "option reader", None), ("method", "val", "Request.method", "Method"),
+                 ("input", "val", "bytes", None), ("parsed", "val", "res (option (N * response))", "res"),
+                 ("partial", "val", "res (option response)", "res")],
+         known=["resp_is_redirection", "resp_has_location", "resp_insert_close", "resp_is_http10", "resp_status", "resp_headers_nonempty",
+                "resp_get_content_length", "resp_text_lookup"],
+         known_res=[("for_response", "gen_br_for_response", 4)],
+         rust_ret="Result<Option<(usize, Response<()>)>, Error>"),
     # src/client/amended.rs: the request analysis (what makes a request invalid, and the framing of its body); the two header accessors
     # are function parameters, version and method are values
     dict(coq="gen_analyze", file="src/client/amended.rs", impl=r"impl<Body>\s+AmendedRequest<Body>", rust="analyze",
